@@ -9,6 +9,7 @@ C05, parser = specification: facts about the specification alone (Spec/InitSpec.
 -/
 import ChibiVerif.Lemmas.InitPathLemmas
 import ChibiVerif.Lemmas.InitFuelLemmas
+import ChibiVerif.Lemmas.InitBracedStr
 
 namespace ChibiVerif.InitSpec
 open ChibiVerif.Init
@@ -120,6 +121,15 @@ theorem consumeEnd_some_isEnd {toks rest : List ITok} (h : consumeEnd toks = som
 
 /-! ### flags only grow -/
 
+theorem initTokWith_clean (rec : Ty → Bool → Init → Option (List Nat) → List ITok → Bool → Flags → Except Fail Result)
+    (hrec : ∀ ty top obj cur toks first fl r, rec ty top obj cur toks first fl = .ok r → r.fl.clean = true → fl.clean = true)
+    (ty : Ty) (top : Bool) (obj : Init) (paths : List (List Nat)) (tok : ITok) (r0 : List ITok) (fl : Flags) (r : Result)
+    (h : initTokWith rec ty top obj paths tok r0 fl = .ok r) (hc : r.fl.clean = true) : fl.clean = true := by
+  unfold initTokWith at h
+  obtain ⟨_, _, h⟩ := bind_eq_ok h
+  obtain ⟨_, _, h⟩ := bind_eq_ok h
+  exact (Flags.clean_join (hrec _ _ _ _ _ _ _ _ h hc)).1
+
 theorem initItemWith_clean (rec : Ty → Bool → Init → Option (List Nat) → List ITok → Bool → Flags → Except Fail Result)
     (hrec : ∀ ty top obj cur toks first fl r, rec ty top obj cur toks first fl = .ok r → r.fl.clean = true → fl.clean = true)
     (ty : Ty) (top : Bool) (obj : Init) (paths : List (List Nat)) (toks : List ITok) (fl : Flags) (r : Result)
@@ -130,12 +140,13 @@ theorem initItemWith_clean (rec : Ty → Bool → Init → Option (List Nat) →
     exact hrec _ _ _ _ _ _ _ _ h hc
   · split at h
     · obtain ⟨_, _, h⟩ := bind_eq_ok h
-      obtain ⟨_, _, h⟩ := bind_eq_ok h
-      obtain ⟨_, _, h⟩ := bind_eq_ok h
-      exact (Flags.clean_join (Flags.clean_join (hrec _ _ _ _ _ _ _ _ h hc)).1).1
-    · obtain ⟨_, _, h⟩ := bind_eq_ok h
-      obtain ⟨_, _, h⟩ := bind_eq_ok h
-      exact (Flags.clean_join (hrec _ _ _ _ _ _ _ _ h hc)).1
+      try simp only at h
+      split at h
+      · exact initTokWith_clean rec hrec _ _ _ _ _ _ _ _ h hc
+      · obtain ⟨_, _, h⟩ := bind_eq_ok h
+        obtain ⟨_, _, h⟩ := bind_eq_ok h
+        exact (Flags.clean_join (Flags.clean_join (hrec _ _ _ _ _ _ _ _ h hc)).1).1
+    · exact initTokWith_clean rec hrec _ _ _ _ _ _ _ _ h hc
     · cases h
 
 theorem initList_clean : ∀ (g : Nat) (ty : Ty) (top : Bool) (obj : Init) (cur : Option (List Nat)) (toks : List ITok)
@@ -334,7 +345,7 @@ theorem initItem_tok (g : Nat) (root : Ty) (top : Bool) (obj : Init) (p : List N
       (descend root top tok (p.length + root.nodes + 2) p >>= fun q =>
         modifyAt root top (storeTok root top tok q) root [] q obj >>= fun obj' =>
           initList g root top obj' (next root top q.reverse) r false (fl.join (tokFlags root obj tok q))) := by
-  unfold initItem initItemWith
+  unfold initItem initItemWith initTokWith
   cases hd : descend root top tok (p.length + root.nodes + 2) p with
   | error e => cases tok <;> first | exact absurd rfl hb | simp [hd, error_bind, List.mapM_cons, bind, Except.bind]
   | ok q =>
@@ -344,20 +355,116 @@ theorem initItem_tok (g : Nat) (root : Ty) (top : Bool) (obj : Init) (p : List N
 
 
 theorem initItem_brace (g : Nat) (root : Ty) (top : Bool) (obj : Init) (p : List Nat) (inner : List ITok) (fl : Flags) {t : Ty}
-    (ht : subTy root p = some t) (hg : growable root top p = false) :
+    (ht : subTy root p = some t) (hg : growable root top p = false) (hbl : bracedLit t inner = none) :
     initItem g root top obj [p] (.lbrace :: inner) fl =
       (initList g t false (braceStart t) (firstCursor t) inner true Flags.none >>= fun sub =>
         modifyAt root top (fun _ _ => pure (defaultMember t (unflex sub.obj))) root [] p obj >>= fun obj' =>
           initList g root top obj' (next root top p.reverse) sub.rest false
             ((fl.join ⟨touched obj p, exprAbove obj p, false, false⟩).join sub.fl)) := by
   unfold initItem initItemWith
-  simp only [ht, hg, Bool.false_eq_true, ↓reduceIte, pure_bind']
+  simp only [ht, hg, Bool.false_eq_true, ↓reduceIte, pure_bind', hbl]
   cases initList g t false (braceStart t) (firstCursor t) inner true Flags.none with
   | error e => rfl
   | ok sub =>
     simp only [ok_bind, List.any_cons, List.any_nil, Bool.or_false, List.length_singleton, Nat.lt_irrefl, decide_false,
       List.foldlM_cons, List.foldlM_nil]
     cases modifyAt root top (fun _ _ => pure (defaultMember t (unflex sub.obj))) root [] p obj <;> rfl
+
+theorem bracedLit_str {t : Ty} {inner : List ITok} {tok : ITok} {r : List ITok} (hbl : bracedLit t inner = some (tok, r)) :
+    ∃ id bytes esz, tok = .str id bytes esz := by
+  unfold bracedLit at hbl
+  split at hbl <;> first | (split at hbl <;> first | (cases hbl; exact ⟨_, _, _, rfl⟩) | cases hbl) | cases hbl
+
+/-- p14/p15: a string literal in braces for a character array is that string literal (the braces are optional) -/
+theorem initItem_bracedLit (g : Nat) (root : Ty) (top : Bool) (obj : Init) (p0 : List Nat) (rest : List (List Nat))
+    (inner : List ITok) (fl : Flags) {t : Ty} {tok : ITok} {r : List ITok}
+    (ht : subTy root p0 = some t) (hg : growable root top p0 = false) (hbl : bracedLit t inner = some (tok, r)) :
+    initItem g root top obj (p0 :: rest) (.lbrace :: inner) fl = initItem g root top obj (p0 :: rest) (tok :: r) fl := by
+  obtain ⟨id, bytes, esz, rfl⟩ := bracedLit_str hbl
+  unfold initItem initItemWith
+  simp only [ht, hg, Bool.false_eq_true, ↓reduceIte, pure_bind', hbl]
+
+theorem chrFits_eq (e : Ty) (esz : Nat) : chrFits e esz = (e.isIntNotBool && e.size == (esz : Int)) := by
+  cases e with
+  | scalar n k => cases k <;> simp [chrFits, strFits, Ty.isInteger, Ty.isIntNotBool]
+  | _ => simp [chrFits, strFits, Ty.isInteger, Ty.isIntNotBool]
+
+theorem chrFits_strFits {e : Ty} {esz : Nat} (h : chrFits e esz = true) : strFits e esz = true := by
+  simp only [chrFits, Bool.and_eq_true] at h; exact h.1
+
+/-- the parser's guard `bracedStr` is the specification's `bracedLit` (p14/p15) for an array with that element type -/
+theorem bracedLit_of_bracedStr {t elem : Ty} {inner : List ITok} {id : Nat} {bytes : List Nat} {esz : Nat} {rest : List ITok}
+    (ht : t.elem? = some elem) (h : bracedStr elem inner = some (id, bytes, esz, rest)) :
+    bracedLit t inner = some (.str id bytes esz, rest) := by
+  obtain ⟨tail, rfl, hce, hi, hsz⟩ := bracedStr_some h
+  have hc : chrFits elem esz = true := by rw [chrFits_eq]; simp [hi, hsz]
+  unfold consumeEnd at hce
+  split at hce
+  · cases hce
+    cases t <;> simp [Ty.elem?] at ht <;> subst ht <;> simp [bracedLit, hc]
+  · cases hce
+    cases t <;> simp [Ty.elem?] at ht <;> subst ht <;> simp [bracedLit, hc]
+  · cases hce
+
+theorem bracedLit_none_of_bracedStr {t elem : Ty} {inner : List ITok} (ht : t.elem? = some elem)
+    (h : bracedStr elem inner = none) : bracedLit t inner = none := by
+  unfold bracedLit
+  split
+  all_goals first
+    | rfl
+    | (simp only [Ty.elem?, Option.some.injEq] at ht
+       subst ht
+       simp only [bracedStr, consumeEnd, ← chrFits_eq] at h
+       split at h
+       · cases h
+       · rename_i hn; simp [hn])
+
+theorem bracedLit_non_array {t : Ty} (inner : List ITok) (ht : t.elem? = none) : bracedLit t inner = none := by
+  cases t <;> first | rfl | simp [Ty.elem?] at ht
+
+/-- the literal of `bracedLit` stops at the array it was found for -/
+theorem bracedLit_stops {t : Ty} {inner : List ITok} {tok : ITok} {r : List ITok} (h : bracedLit t inner = some (tok, r)) :
+    stopsAt t tok = true ∧ tok ≠ .lbrace := by
+  unfold bracedLit at h
+  split at h <;> first
+    | cases h
+    | (split at h
+       · rename_i hc; cases h; exact ⟨by simp [stopsAt, chrFits_strFits hc], by simp⟩
+       · cases h)
+
+theorem bracedStr_none_of_bracedLit {t elem : Ty} {inner : List ITok} (ht : t.elem? = some elem)
+    (h : bracedLit t inner = none) : bracedStr elem inner = none := by
+  cases hbs : bracedStr elem inner with
+  | none => rfl
+  | some x =>
+    obtain ⟨id, bytes, esz, rest⟩ := x
+    rw [bracedLit_of_bracedStr ht hbs] at h; cases h
+
+/-- the parser on `{ "…" }` for a character array is the parser on the literal alone -/
+theorem init2_bracedLit_eq {f : Nat} {t : Ty} {inner : List ITok} {tok : ITok} {r : List ITok} (c : Init)
+    (hbl : bracedLit t inner = some (tok, r)) :
+    initializer2 f t (.lbrace :: inner) c = initializer2 f t (tok :: r) c := by
+  cases f with
+  | zero => simp [initializer2]
+  | succ f =>
+    cases t with
+    | scalar => rw [bracedLit_non_array inner rfl] at hbl; cases hbl
+    | struct => rw [bracedLit_non_array inner rfl] at hbl; cases hbl
+    | union => rw [bracedLit_non_array inner rfl] at hbl; cases hbl
+    | array e n =>
+      cases hbs : bracedStr e inner with
+      | none => rw [bracedLit_none_of_bracedStr rfl hbs] at hbl; cases hbl
+      | some x =>
+        obtain ⟨id, bytes, esz, rest⟩ := x
+        rw [bracedLit_of_bracedStr rfl hbs] at hbl; cases hbl
+        exact initializer2_array_bracedStr c hbs
+    | inc e =>
+      cases hbs : bracedStr e inner with
+      | none => rw [bracedLit_none_of_bracedStr rfl hbs] at hbl; cases hbl
+      | some x =>
+        obtain ⟨id, bytes, esz, rest⟩ := x
+        rw [bracedLit_of_bracedStr rfl hbs] at hbl; cases hbl
+        exact initializer2_inc_bracedStr c hbs
 
 theorem initItem_excess (g : Nat) (root : Ty) (top : Bool) (obj : Init) (toks : List ITok) (fl : Flags) :
     initItem g root top obj [] toks fl =
@@ -662,6 +769,15 @@ theorem mapM_cons_ok {α β : Type} {f : α → Except Fail β} {a : α} {as : L
   cases h
   exact ⟨b, bs', hb, hbs, rfl⟩
 
+theorem initTok_wide_dirty {g : Nat} {root : Ty} {top : Bool} {obj : Init} {p0 : List Nat} {rest : List (List Nat)} {tok : ITok}
+    {r : List ITok} {fl : Flags} {res : Result} (hw' : 0 < rest.length) (hns : siblings (p0 :: rest) = false)
+    (hr : initTokWith (initList g) root top obj (p0 :: rest) tok r fl = .ok res) (hc : res.fl.clean = true) : False := by
+  unfold initTokWith at hr
+  obtain ⟨_, _, hr⟩ := bind_eq_ok hr
+  obtain ⟨_, _, hr⟩ := bind_eq_ok hr
+  have := (Flags.clean_mk (Flags.clean_join (initList_clean _ _ _ _ _ _ _ _ _ hr hc)).2).2.2
+  simp [hns, hw'] at this
+
 theorem initItem_wide_dirty {g : Nat} {root : Ty} {top : Bool} {obj : Init} {paths : List (List Nat)} {toks : List ITok} {fl : Flags}
     {res : Result} (hw : 1 < paths.length) (hns : siblings paths = false)
     (hr : initItem g root top obj paths toks fl = .ok res) : res.fl.clean = false := by
@@ -677,15 +793,26 @@ theorem initItem_wide_dirty {g : Nat} {root : Ty} {top : Bool} {obj : Init} {pat
       simp only at hr
       split at hr
       · obtain ⟨_, _, hr⟩ := bind_eq_ok hr
-        obtain ⟨_, _, hr⟩ := bind_eq_ok hr
-        obtain ⟨_, _, hr⟩ := bind_eq_ok hr
-        have := (Flags.clean_mk (Flags.clean_join (Flags.clean_join (initList_clean _ _ _ _ _ _ _ _ _ hr hc)).1).2).2.2
-        simp [hns, hw'] at this
-      · obtain ⟨_, _, hr⟩ := bind_eq_ok hr
-        obtain ⟨_, _, hr⟩ := bind_eq_ok hr
-        have := (Flags.clean_mk (Flags.clean_join (initList_clean _ _ _ _ _ _ _ _ _ hr hc)).2).2.2
-        simp [hns, hw'] at this
+        try simp only at hr
+        split at hr
+        · exact initTok_wide_dirty hw' hns hr hc
+        · obtain ⟨_, _, hr⟩ := bind_eq_ok hr
+          obtain ⟨_, _, hr⟩ := bind_eq_ok hr
+          have := (Flags.clean_mk (Flags.clean_join (Flags.clean_join (initList_clean _ _ _ _ _ _ _ _ _ hr hc)).1).2).2.2
+          simp [hns, hw'] at this
+      · exact initTok_wide_dirty hw' hns hr hc
       · cases hr
+
+theorem initTok_xover_dirty {g : Nat} {root : Ty} {top : Bool} {obj : Init} {p0 : List Nat} {rest : List (List Nat)} {tok : ITok}
+    {r : List ITok} {fl : Flags} {res : Result} (hx : ∀ q ∈ p0 :: rest, ∀ s, exprAbove obj (q ++ s) = true)
+    (hr : initTokWith (initList g) root top obj (p0 :: rest) tok r fl = .ok res) (hc : res.fl.clean = true) : False := by
+  unfold initTokWith at hr
+  obtain ⟨targets, ht, hr⟩ := bind_eq_ok hr
+  obtain ⟨_, _, hr⟩ := bind_eq_ok hr
+  obtain ⟨q0, ts, hq0, _, rfl⟩ := mapM_cons_ok ht
+  obtain ⟨s, rfl⟩ := descend_prefix _ _ _ _ _ _ hq0
+  have := (Flags.clean_mk (Flags.clean_join (initList_clean _ _ _ _ _ _ _ _ _ hr hc)).2).2.1
+  simp [hx p0 (by simp) s] at this
 
 theorem initItem_xover_dirty {g : Nat} {root : Ty} {top : Bool} {obj : Init} {paths : List (List Nat)} {toks : List ITok} {fl : Flags}
     {res : Result} (hne : paths ≠ []) (hx : ∀ q ∈ paths, ∀ s, exprAbove obj (q ++ s) = true)
@@ -701,17 +828,14 @@ theorem initItem_xover_dirty {g : Nat} {root : Ty} {top : Bool} {obj : Init} {pa
       have h0 : exprAbove obj p0 = true := by simpa using hx p0 (by simp) []
       split at hr
       · obtain ⟨_, _, hr⟩ := bind_eq_ok hr
-        obtain ⟨_, _, hr⟩ := bind_eq_ok hr
-        obtain ⟨_, _, hr⟩ := bind_eq_ok hr
-        have := (Flags.clean_mk (Flags.clean_join (Flags.clean_join (initList_clean _ _ _ _ _ _ _ _ _ hr hc)).1).2).2.1
-        simp [h0] at this
-      · rename_i tok r
-        obtain ⟨targets, ht, hr⟩ := bind_eq_ok hr
-        obtain ⟨_, _, hr⟩ := bind_eq_ok hr
-        obtain ⟨q0, ts, hq0, _, rfl⟩ := mapM_cons_ok ht
-        obtain ⟨s, rfl⟩ := descend_prefix _ _ _ _ _ _ hq0
-        have := (Flags.clean_mk (Flags.clean_join (initList_clean _ _ _ _ _ _ _ _ _ hr hc)).2).2.1
-        simp [hx p0 (by simp) s] at this
+        try simp only at hr
+        split at hr
+        · exact initTok_xover_dirty hx hr hc
+        · obtain ⟨_, _, hr⟩ := bind_eq_ok hr
+          obtain ⟨_, _, hr⟩ := bind_eq_ok hr
+          have := (Flags.clean_mk (Flags.clean_join (Flags.clean_join (initList_clean _ _ _ _ _ _ _ _ _ hr hc)).1).2).2.1
+          simp [h0] at this
+      · exact initTok_xover_dirty hx hr hc
       · cases hr
 
 theorem touched_switch (e : Option Expr) {m k : Nat} (cs : List Init) (s : List Nat) (hm : m ≠ k) :
@@ -724,6 +848,18 @@ theorem switchesUnion_switch (e : Option Expr) {m k : Nat} (cs : List Init) (s :
 
 /-- an initializer for another member of the union that is the current object than the one initialised so far: the run enters
     the region `over` (6.7.9p19 makes the new member the initialised one, from zero; `touched` / `switchesUnion` see it) -/
+theorem initTok_switch_dirty {g : Nat} {root : Ty} {top : Bool} {e : Option Expr} {m k : Nat} {cs : List Init}
+    {s0 : List Nat} {rest : List (List Nat)} {tok : ITok} {r : List ITok} {fl : Flags} {res : Result} (hm : m ≠ k)
+    (hr : initTokWith (initList g) root top (.union e (some m) cs) ((k :: s0) :: rest) tok r fl = .ok res)
+    (hc : res.fl.clean = true) : False := by
+  unfold initTokWith at hr
+  obtain ⟨targets, ht, hr⟩ := bind_eq_ok hr
+  obtain ⟨_, _, hr⟩ := bind_eq_ok hr
+  obtain ⟨q0, ts, hq0, _, rfl⟩ := mapM_cons_ok ht
+  obtain ⟨s, rfl⟩ := descend_prefix _ _ _ _ _ _ hq0
+  have := (Flags.clean_mk (Flags.clean_join (initList_clean _ _ _ _ _ _ _ _ _ hr hc)).2).1
+  simp [switchesUnion_switch e cs (s0 ++ s) hm] at this
+
 theorem initItem_switch_dirty {g : Nat} {root : Ty} {top : Bool} {e : Option Expr} {m k : Nat} {cs : List Init}
     {paths : List (List Nat)} {toks : List ITok} {fl : Flags} {res : Result} (hne : paths ≠ []) (hm : m ≠ k)
     (hx : ∀ q ∈ paths, ∃ s, q = k :: s)
@@ -740,17 +876,14 @@ theorem initItem_switch_dirty {g : Nat} {root : Ty} {top : Bool} {e : Option Exp
       subst hp0
       split at hr
       · obtain ⟨_, _, hr⟩ := bind_eq_ok hr
-        obtain ⟨_, _, hr⟩ := bind_eq_ok hr
-        obtain ⟨_, _, hr⟩ := bind_eq_ok hr
-        have := (Flags.clean_mk (Flags.clean_join (Flags.clean_join (initList_clean _ _ _ _ _ _ _ _ _ hr hc)).1).2).1
-        simp [touched_switch e cs s0 hm] at this
-      · rename_i tok r
-        obtain ⟨targets, ht, hr⟩ := bind_eq_ok hr
-        obtain ⟨_, _, hr⟩ := bind_eq_ok hr
-        obtain ⟨q0, ts, hq0, _, rfl⟩ := mapM_cons_ok ht
-        obtain ⟨s, rfl⟩ := descend_prefix _ _ _ _ _ _ hq0
-        have := (Flags.clean_mk (Flags.clean_join (initList_clean _ _ _ _ _ _ _ _ _ hr hc)).2).1
-        simp [switchesUnion_switch e cs (s0 ++ s) hm] at this
+        try simp only at hr
+        split at hr
+        · exact initTok_switch_dirty hm hr hc
+        · obtain ⟨_, _, hr⟩ := bind_eq_ok hr
+          obtain ⟨_, _, hr⟩ := bind_eq_ok hr
+          have := (Flags.clean_mk (Flags.clean_join (Flags.clean_join (initList_clean _ _ _ _ _ _ _ _ _ hr hc)).1).2).1
+          simp [touched_switch e cs s0 hm] at this
+      · exact initTok_switch_dirty hm hr hc
       · cases hr
 
 mutual
